@@ -571,6 +571,8 @@ def run(ctx):
     ctx.trust("sa/props/c17.py NC (non-commutative polynomials with relations C.S = Id, sqrtC.isqrtC = Id, symmetric atoms)")
     split_rule(ctx)
     ctx.attempt(trace_selector_rule, ctx)
+    ctx.attempt(stress_parts_rule, ctx)
+    ctx.attempt(history_reset_callers_rule, ctx)
     projector_rule(ctx)
     mask_rule(ctx)
     history_rule(ctx)
@@ -617,3 +619,70 @@ def trace_selector_rule(ctx):
             r.fail(f.qualname, f"selectors:dim{dim}", f.file, f.lineno, "PhaseField.__Rp_Rm", f"dim {dim}: {bad}")
         else:
             r.ok(f"dim {dim}: selectors follow the sign of the trace")
+
+
+def stress_parts_rule(ctx):
+    """R17.10: the stress parts are the split stiffnesses applied to the strain, Sigma+- = c+- : eps (row i: sum_j c[i][j]
+    eps[j]) -- NOT eps : c+-, which differs as soon as a split stiffness is not symmetric (Zhang, the anisotropic
+    splits).  Calc_Sigma_e_pg is interpreted under the FeArray protocol model with symbolic, non-symmetric c+-."""
+    from ..femodel import Model, FeV
+
+    repo = ctx.repo
+    ci = repo.cls(PFM)
+    f = ci.methods["Calc_Sigma_e_pg"]
+    r = ctx.rule("R17.10", "Calc_Sigma_e_pg: Sigma+ == c+ : eps and Sigma- == c- : eps entry by entry for non-symmetric split stiffnesses (Ne == nPg == D coincidence included)", min_instances=2)
+    for D, Ne, nPg in ((3, 3, 3), (6, 2, 1)):
+        r.instance(fn=f.qualname)
+        M = Model(repo)
+        eps = FeV((Ne, nPg, D), [Poly.var(f"e{e}{p}{i}") for e in range(Ne) for p in range(nPg) for i in range(D)])
+        cs = {s: FeV((Ne, nPg, D, D), [Poly.var(f"c{s}{e}{p}_{i}{j}") for e in range(Ne) for p in range(nPg) for i in range(D) for j in range(D)]) for s in "PM"}
+        obj = XObj(ci, {"Calc_C": lambda E, verif=False: (cs["P"], cs["M"])})
+        M.user_call_hook = lambda fn, args, kwargs: Sink() if getattr(fn, "name", "") == "Tic" else NotImplemented
+        try:
+            out = M.I.call_function(f, [eps], self_obj=obj)
+        except XRaise as e:
+            r.fail(f.qualname, f"parts:D{D}", f.file, f.lineno, "PhaseField.Calc_Sigma_e_pg", f"D = {D}: raises {e}")
+            continue
+        bad = None
+        for s, got in zip("PM", out):
+            got = XArray.from_nested(got)
+            if got.shape != (Ne, nPg, D):
+                bad = f"Sigma{'+' if s == 'P' else '-'} has shape {got.shape}"
+                break
+            for e in range(Ne):
+                for p in range(nPg):
+                    for i in range(D):
+                        want = sum((Poly.of(cs[s][e, p, i, j]) * Poly.of(eps[e, p, j]) for j in range(D)), Poly())
+                        if bad is None and not is_zero(Poly.of(got[e, p, i]) - want):
+                            bad = f"Sigma{'+' if s == 'P' else '-'}[{i}] at (e={e}, p={p}) is not sum_j c[{i}][j] eps[j]" + (" (it is sum_j c[j][i] eps[j]: the transposed stiffness)" if is_zero(Poly.of(got[e, p, i]) - sum((Poly.of(cs[s][e, p, j, i]) * Poly.of(eps[e, p, j]) for j in range(D)), Poly())) else "")
+        if bad:
+            r.fail(f.qualname, f"parts:D{D}", f.file, f.lineno, "PhaseField.Calc_Sigma_e_pg", f"D = {D}, (Ne, nPg) = ({Ne}, {nPg}): {bad}: for the splits whose c+- are not symmetric the two stress parts are wrong although their sum is not")
+        else:
+            r.ok(f"D = {D}: Sigma+- == c+- : eps")
+
+
+def history_reset_callers_rule(ctx):
+    """R17.11: 'the driving (history) energy ... never decreases between saved steps': the only writer that can lower the
+    history field is the reset branch of PhaseField.Set_Iter (resetAll=True), an explicit request of the user.  No
+    function of the library requests it: every Set_Iter call site inside the package leaves resetAll at its default
+    (a read such as Result(..., iter=i) must not rebuild the history from the instantaneous energy)."""
+    repo = ctx.repo
+    r = ctx.rule("R17.11", "no call site of Set_Iter inside the simulation classes asks for the history reset (resetAll left at False): reading a stored iteration cannot lower the history field", min_instances=8)
+    for f in sorted(repo.all_functions(), key=lambda f: f.qualname):
+        if not f.module.name.startswith("EasyFEA.Simulations"):
+            # the export / plotting utilities walk the whole history from iteration 0 with an explicit reset: they take the
+            # simulation over on purpose (consequence of the history not being part of a stored iteration, known finding F11)
+            continue
+        for n in ast.walk(f.node):
+            if not (isinstance(n, ast.Call) and isinstance(n.func, ast.Attribute) and n.func.attr == "Set_Iter"):
+                continue
+            if isinstance(n.func.value, ast.Call) and dotted(n.func.value.func) == "super":
+                # the override forwarding to its base: the base method takes no history decision
+                pass
+            r.instance(fn=f.qualname)
+            extra = list(n.args[1:]) + [k.value for k in n.keywords if k.arg in ("resetAll", None)]
+            bad = [e for e in extra if not (isinstance(e, ast.Constant) and e.value is False)]
+            if bad:
+                r.fail(f.qualname, f"reset-request:{norm_text(n)[:40]}", f.file, n.lineno, f"{f.cls.name + '.' if f.cls else ''}{f.name}", f"`{norm_text(n)}` asks Set_Iter to reset the internal variables: with the history solver the stored maximum of the driving energy is replaced by the instantaneous one, so a query after an unloading lowers the history and the damage heals")
+            else:
+                r.ok(f"{f.qualname}: {norm_text(n)}")
